@@ -12,7 +12,7 @@ import (
 
 // C41 — fast header parsing agrees with full decoding (error-before-use clause only).
 func init() {
-	register(&Check{ID: "C41", Level: "other", Pkgs: []string{"./internal/object", "./pkg/local_object_storage/blobstor/fstree"}, Run: runC41})
+	register(&Check{ID: "C41", Level: "other", Pkgs: []string{"./internal/object", "./pkg/local_object_storage/blobstor/fstree", "./pkg/local_object_storage/shard", "./pkg/services/object"}, Run: runC41})
 }
 
 // fallibleResultUses checks, in fn, that no result of a fallible parse helper is used before its
@@ -331,6 +331,39 @@ func runC41(p *core.Prog, r *core.Report) {
 	if nThr == 0 {
 		r.Fatalf("C41.R5: no `buffered < constant` refill test found in readHeader")
 	}
+	// ---- R6 the fast parsers see everything that was read for them
+	r6 := r.Rule("C41.R6", "a fast-path parser of stored object bytes is handed all the bytes read for it: its argument is never cut at a constant length (the non-payload part is the id, the signature AND the header, each with its own limit; a cut at one of those limits makes the fast path fail on objects that full decoding accepts)", 5)
+	nSites := 0
+	for _, cs := range core.CallSites(p.Funcs(), func(s core.Site) bool {
+		switch s.Name {
+		case "internal/object.GetNonPayloadFieldBounds", "internal/object.GetParentNonPayloadFieldBounds", "internal/object.GetParentNonPayloadFieldBoundsHeader", "internal/object.ExtractHeaderAndPayload":
+			return core.FuncPkg(s.Fn) != nil && !strings.HasSuffix(core.FuncPkg(s.Fn).Path(), "internal/object")
+		}
+		return false
+	}) {
+		nSites++
+		arg := cs.Call.Common().Args[0]
+		cut := ""
+		if sl, ok := arg.(*ssa.Slice); ok && sl.High != nil {
+			if _, isK := intConstOf(sl.High); isK {
+				cut = "a constant"
+			} else if c, isC := sl.High.(*ssa.Call); isC {
+				if bi, isB := c.Call.Value.(*ssa.Builtin); isB && bi.Name() == "min" {
+					for _, a := range c.Call.Args {
+						if _, isK := intConstOf(a); isK {
+							cut = "min(..., constant)"
+						}
+					}
+				}
+			}
+		}
+		r6.Check(cut == "", core.FuncName(cs.Fn)+"#"+cs.Name[strings.LastIndex(cs.Name, ".")+1:], p.InstrPos(cs.Call), "gets the bytes as read",
+			"the fast-path parser is given the buffer cut at "+cut+": bytes that were read and belong to the non-payload fields are hidden from it, so it fails (or disagrees with full decoding) for objects whose id, signature and header together pass that length")
+	}
+	if nSites == 0 {
+		r.Fatalf("C41.R6: no caller of the fast-path parsers found")
+	}
+	r.Explain += " (R6) every caller outside the parsing package hands the fast-path parsers the buffer up to the number of bytes actually read, never up to a fixed length."
 }
 
 // nextIsReturnOnly: every referrer of the loaded value is a Return (the value is only passed back).
